@@ -93,7 +93,8 @@ def project_kernel_onto_grid(alpha, k0s, dims):
 
 def get_mapped_gp_evaluator_linear(kernel, X, alpha):
     N = X.shape[1]
-    assert N == alpha.size
+    # one weight per control point (row of X); N is the number of features
+    assert X.shape[0] == alpha.size
     XT = np.identity(N)
     coefs = kernel(XT, X).dot(alpha)
     from ciderpress.dft.xc_evaluator import GlobalLinearEvaluator
